@@ -1198,7 +1198,9 @@ impl FdlActiveStation {
         self.state
             .transition_pass_token(DoGap::Yes, PassTokenAttempt::First);
 
-        PollDone::waiting_for_delay()
+        // Nothing (more) to send in this token hold: pass the token on right away instead of waiting
+        // for the next poll.
+        self.do_pass_token(now, phy)
     }
 
     fn do_await_data_response<PHY: ProfibusPhy>(
